@@ -1,18 +1,28 @@
 (* Correspondence runner for C16.  A case is what the harness observed while forcing one schedule on the
    real ocache: the number of goroutines and the macro steps (one harness action + the events logged until
-   quiescence).  code 1 = the model does not accept the observed trace, code 2 = spec_C16 false on it. *)
+   quiescence).  code 1 = the model does not accept the observed trace, code 2 = spec_C16 false on it.
+   [CFine]: a schedule forced at lock-region granularity (interleaving families: goroutines are also parked in
+   front of every outermost c.mu / e.mx acquisition); per scheduler action the goroutines that were able to
+   move during it and the events logged; accepted by [accept_fine] (open macro steps, frozen goroutines). *)
 From Coq Require Import List NArith Bool.
 Import ListNotations.
 From AnySync Require Export Model.OCache.
 
 Inductive case :=
-| CSched (nthreads : N) (steps : list (list event)).
+| CSched (nthreads : N) (steps : list (list event))
+| CFine (steps : list (list N * list event)).
 
 Definition model_ok (c : case) : bool :=
-  match c with CSched n steps => accept n steps end.
+  match c with
+  | CSched n steps => accept n steps
+  | CFine steps => accept_fine steps
+  end.
 
 Definition spec_ok (c : case) : bool :=
-  match c with CSched n steps => spec_C16 (concat steps) end.
+  match c with
+  | CSched n steps => spec_C16 (concat steps)
+  | CFine steps => spec_C16 (fine_events steps)
+  end.
 
 Fixpoint check_from (i : N) (l : list case) : list (N * N) :=
   match l with
